@@ -13,6 +13,7 @@ Answers: `(ok …)` or `(raise ValueError)`.  Origins are printed as
   | (Origin src pos) | (MultiOrigin src pos origin…)          with src printed as `(src key)` / `(set …)`.
 -/
 import PyOak.Model.Origin
+import PyOak.Model.PySlice
 namespace PyOak
 open Sexp OriginAlg Gen
 
@@ -161,6 +162,12 @@ def handleOrigin (cmd : String) (args : List Sexp) : Option Sexp :=
       pure (app "ok" [match getRaw (.code false (.one { key := 1, fqn := [], raw := raw }) r) with
         | some t => ofStr t
         | none => sym "none"])
+  | "o-pyslice", [t, lo, hi] => do
+      -- Python `text[lo:hi]` for arbitrary ints (Model/PySlice.lean; = the `slice` of `getRaw` for 0 ≤ lo, 0 ≤ hi)
+      let t ← asStr? t
+      let lo ← asInt? lo
+      let hi ← asInt? hi
+      pure (app "ok" [ofStr (pySlice t lo hi)])
   | _, _ => none
 
 end PyOak
